@@ -686,6 +686,19 @@ func TestC07(t *testing.T) {
 				h.R.AddExact(int64(len(unknown)*per), int64(len(unknown)*per))
 				h.R.Count(fmt.Sprintf("v%s exhaustive: Set with every pooled unknown abbreviation x every value legal somewhere in the version", v.Name), int64(len(unknown)*per))
 			}
+			// every metric of the version x every pooled value (legal ones, other versions' values, every disguise of a
+			// legal value): Set succeeds exactly for the legal pairs and a refused Set leaves the object unchanged - the
+			// random histories draw such a value now and then; here none of them is left to chance
+			pool := gen.AllVals()
+			Enum(h, "known-set", len(v.Metrics)*len(pool), func(i int) Offer {
+				c := bgc
+				c.Abv, c.Val = gen.BStr(v.Metrics[i/len(pool)].Abv), gen.BStr(pool[i%len(pool)])
+				return c
+			}, nil, checkOffer)
+			if !h.replaying() {
+				h.R.AddExact(int64(len(v.Metrics)*len(pool)), int64(len(v.Metrics)*len(pool)))
+				h.R.Count(fmt.Sprintf("v%s exhaustive: Set of every metric with every pooled value (%d)", v.Name, len(pool)), int64(len(v.Metrics)*len(pool)))
+			}
 		}
 		// every window of 5 consecutive metrics x all value combinations x 3 backgrounds: on each such object every
 		// metric set to every value
